@@ -778,7 +778,7 @@ func (i *interpreter) panicString(v value) string {
 		if itf.t != nil {
 			// error or Stringer: call its method
 			for _, name := range []string{"Error", "String"} {
-				if m := i.prog.LookupMethod(itf.t, nil, name); m != nil && m.Blocks != nil {
+				if m := i.lookupMethodByName(itf.t, name); m != nil && m.Blocks != nil {
 					var out string
 					func() {
 						defer func() {
